@@ -644,6 +644,13 @@ class An:
             if contradicts(s.facts,f): return False      # infeasible under the path's ordering facts
             s.facts.append(f)
             return True
+        if isterm(v) and v[0] in('sc','par','add','sub','cast','unk','mulc','max','min'):
+            # `match scale { 0 => .., _ => .. }`: a switch on the scalar itself
+            if not otherwise:
+                f=('eq',v,('int',int(val)))
+                if contradicts(s.facts,f): return False
+                s.facts.append(f)
+            return True
         if isinstance(v,tuple) and v and v[0] in('bool','test'):
             if allvals==['0']: truth=otherwise
             elif otherwise: return True
